@@ -7,6 +7,7 @@ namespace Bardolph
 namespace Sim
 open Vm VmSteps Sem Gen
 
+variable {V : String → Prop}
 variable {img : Image} {K : Ctx} {stk : Stk} {un : List Val} {σ : S} {s : State} {pc : Nat}
 
 /-! ## the shape of a loop -/
@@ -145,8 +146,8 @@ theorem exec_test {stk : Stk} {σ : S} {s : State} {pc : Nat} (c : Option Rv) (h
     · simp at hev
 
 /-- `repeat while c` / `repeat`: from the test on, with the loop frame in place -/
-def WhileIter (img : Image) (K : Ctx) (f : Nat) : Prop :=
-  ∀ (c : Option Rv) (body : Block), CondOK c → FragBlock body →
+def WhileIter (V : String → Prop) (img : Image) (K : Ctx) (f : Nat) : Prop :=
+  ∀ (c : Option Rv) (body : Block), CondOK c → FragBlock V body →
   ∀ (σ σ' : S) (o : Outcome) (s : State) (top : Nat) (stk : Stk)
     (vars : List (LoopVar × Val)) (extra : List Val) (off : Int),
     Sim K (stk.inner vars extra) σ s → s.pc = (top : Int) →
@@ -159,12 +160,12 @@ def WhileIter (img : Image) (K : Ctx) (f : Nat) : Prop :=
     o = .normal ∧
       Exec img s (At K (top + (testCode c).length + 1 + (genBlock body).length + 1 + 1) stk [] σ')
 
-theorem while_zero : WhileIter img K 0 := by
+theorem while_zero : WhileIter V img K 0 := by
   intro c body _ _ σ σ' o s top stk vars extra off _ _ _ _ h ho
   simp only [execWhile, Prod.mk.injEq] at h
   rcases ho with rfl | rfl <;> simp at h
 
-theorem while_step (f : Nat) (ihB : BlockGoal img K f) (ihW : WhileIter img K f) : WhileIter img K (f + 1) := by
+theorem while_step (f : Nat) (ihB : BlockGoal V img K f) (ihW : WhileIter V img K f) : WhileIter V img K (f + 1) := by
   intro c body hcnd hb σ σ' o s top stk vars extra off sim hpc hc hoff h ho
   rw [execWhile_succ] at h
   have hct := hc.left.left.left.left
@@ -338,8 +339,8 @@ theorem exec_bodyPre {stk : Stk} {σ : S} {s : State} {pc : Nat} (lv : Option St
 with the counter — and the increment of the index variable `ix`, if there is one — in the loop
 frame, and the names still to visit (`names`, for a loop with a light variable `lv`) on the
 evaluation stack -/
-def CountIter (img : Image) (K : Ctx) (f : Nat) : Prop :=
-  ∀ (body : Block), FragBlock body → ∀ (lv : Option String) (ix : Option (String × Val))
+def CountIter (V : String → Prop) (img : Image) (K : Ctx) (f : Nat) : Prop :=
+  ∀ (body : Block), FragBlock V body → ∀ (lv : Option String) (ix : Option (String × Val))
     (names : List String) (σ σ' : S) (o : Outcome) (s : State) (top : Nat) (stk : Stk)
     (vars : List (LoopVar × Val)) (cnt : Val) (q : Rat) (fl : Bool) (off : Int),
     Sim K (stk.inner vars (pendOf lv names)) σ s → s.pc = (top : Int) →
@@ -358,12 +359,12 @@ def CountIter (img : Image) (K : Ctx) (f : Nat) : Prop :=
       Exec img s (At K (top + 5 + ((bodyPreOf lv).length + (genBlock body).length + (postOf ix).length) + 1 + 1)
         stk [] σ')
 
-theorem count_zero : CountIter img K 0 := by
+theorem count_zero : CountIter V img K 0 := by
   intro body _ lv ix names σ σ' o s top stk vars cnt q fl off _ _ _ _ _ _ _ _ h ho
   simp only [execPasses, Prod.mk.injEq] at h
   rcases ho with rfl | rfl <;> simp at h
 
-theorem count_step (f : Nat) (ihB : BlockGoal img K f) (ihC : CountIter img K f) : CountIter img K (f + 1) := by
+theorem count_step (f : Nat) (ihB : BlockGoal V img K f) (ihC : CountIter V img K f) : CountIter V img K (f + 1) := by
   intro body hb lv ix names σ σ' o s top stk vars cnt q fl off sim hpc hcnt hnum hlenq hincr hc hoff h ho
   have hct := hc.left.left.left.left
   have hcj := hc.left.left.left.right.head
@@ -462,22 +463,22 @@ theorem assembleLoop_length (pre test bodyPre : List Instr) (body : Code) (post 
   rw [← resolve_length _ 0 0, resolve_assembleLoop]
   simp only [List.length_append, List.length_cons, List.length_nil, resolve_length]
 
-def LoopGoal (img : Image) (K : Ctx) (f : Nat) : Prop :=
-  ∀ (hd : LoopHdr) (body : Block), LoopHdrOK hd → FragBlock body →
+def LoopGoal (V : String → Prop) (img : Image) (K : Ctx) (f : Nat) : Prop :=
+  ∀ (hd : LoopHdr) (body : Block), LoopHdrOK V hd → FragBlock V body →
   ∀ (σ σ' : S) (o : Outcome) (s : State) (pc exit : Nat) (stk : Stk),
     Sim K stk σ s → s.pc = (pc : Int) →
     CodeAt img pc (resolve (genLoop hd (genBlock body)) pc exit) →
     execLoop f hd body σ = (o, σ') → (o = .normal ∨ o = .brk) →
     o = .normal ∧ Exec img s (At K (pc + (genLoop hd (genBlock body)).length) stk [] σ')
 
-theorem loop_zero : LoopGoal img K 0 := by
+theorem loop_zero : LoopGoal V img K 0 := by
   intro hd body _ _ σ σ' o s pc exit stk _ _ _ h ho
   simp only [execLoop, Prod.mk.injEq] at h
   rcases ho with rfl | rfl <;> simp at h
 
 /-- `repeat while c` and `repeat`: frame, iterations, frame dropped -/
-theorem loop_while (f : Nat) (ihW : WhileIter img K f) (c : Option Rv) (hcnd : CondOK c) (body : Block)
-    (hb : FragBlock body) (σ σ' : S) (o : Outcome) (s : State) (pc exit : Nat) (stk : Stk)
+theorem loop_while (f : Nat) (ihW : WhileIter V img K f) (c : Option Rv) (hcnd : CondOK c) (body : Block)
+    (hb : FragBlock V body) (σ σ' : S) (o : Outcome) (s : State) (pc exit : Nat) (stk : Stk)
     (sim : Sim K stk σ s) (hpc : s.pc = (pc : Int))
     (hc : CodeAt img pc (resolve (assembleLoop [] (testCode c) [] (genBlock body) []) pc exit))
     (h : execWhile f c body σ = (o, σ')) (ho : o = .normal ∨ o = .brk) :
@@ -543,8 +544,8 @@ theorem counted_rest {pc exit : Nat} (pre : List Instr) (lv : Option String) (ix
 /-- **a counted loop**: `LOOP`, the prologue `pre` (which leaves the count — and the increment of
 the index variable `ix` — in the loop frame, the names to visit on the evaluation stack, and the
 source-level state `σ1`), the passes, `END_LOOP` -/
-theorem loop_counted (f : Nat) (ihC : CountIter img K f) (pre : List Instr) (lv : Option String)
-    (ix : Option (String × Val)) (body : Block) (hb : FragBlock body) (names : List String)
+theorem loop_counted (f : Nat) (ihC : CountIter V img K f) (pre : List Instr) (lv : Option String)
+    (ix : Option (String × Val)) (body : Block) (hb : FragBlock V body) (names : List String)
     (σ σ1 σ' : S) (o : Outcome) (s : State) (pc exit : Nat)
     (stk : Stk) (sim : Sim K stk σ s) (hpc : s.pc = (pc : Int))
     (hc : CodeAt img pc (resolve (assembleLoop pre counterTest (bodyPreOf lv) (genBlock body) (postOf ix))
@@ -586,8 +587,8 @@ theorem loop_counted (f : Nat) (ihC : CountIter img K f) (pre : List Instr) (lv 
 theorem passes_replicate (k : Nat) : (List.replicate k "").length = k := List.length_replicate
 
 /-- `repeat n` -/
-theorem loop_count (f : Nat) (ihC : CountIter img K f) (n : Rv) (hn : RvOK n) (body : Block)
-    (hb : FragBlock body) (σ σ' : S) (o : Outcome) (s : State) (pc exit : Nat) (stk : Stk)
+theorem loop_count (f : Nat) (ihC : CountIter V img K f) (n : Rv) (hn : RvOK n) (body : Block)
+    (hb : FragBlock V body) (σ σ' : S) (o : Outcome) (s : State) (pc exit : Nat) (stk : Stk)
     (sim : Sim K stk σ s) (hpc : s.pc = (pc : Int))
     (hc : CodeAt img pc (resolve (genLoop (.count n) (genBlock body)) pc exit))
     (h : execLoop (f + 1) (.count n) body σ = (o, σ')) (ho : o = .normal ∨ o = .brk) :
@@ -615,8 +616,8 @@ theorem loop_count (f : Nat) (ihC : CountIter img K f) (n : Rv) (hn : RvOK n) (b
       rcases ho with h | h <;> simp at h
 
 /-- `repeat with v from a to b` -/
-theorem loop_range (f : Nat) (ihC : CountIter img K f) (v : String) (a b : Rv) (ha : RvOK a) (hbd : RvOK b)
-    (body : Block) (hb : FragBlock body) (σ σ' : S) (o : Outcome) (s : State) (pc exit : Nat)
+theorem loop_range (f : Nat) (ihC : CountIter V img K f) (v : String) (a b : Rv) (ha : RvOK a) (hbd : RvOK b)
+    (body : Block) (hb : FragBlock V body) (σ σ' : S) (o : Outcome) (s : State) (pc exit : Nat)
     (stk : Stk) (sim : Sim K stk σ s) (hpc : s.pc = (pc : Int))
     (hc : CodeAt img pc (resolve (genLoop (.range v a b) (genBlock body)) pc exit))
     (h : execLoop (f + 1) (.range v a b) body σ = (o, σ')) (ho : o = .normal ∨ o = .brk) :
@@ -670,8 +671,8 @@ theorem loop_range (f : Nat) (ihC : CountIter img K f) (v : String) (a b : Rv) (
         rcases ho with h | h <;> simp at h
 
 /-- the counted forms with a `with` clause: `repeat n with v from a to b`, `repeat n with v cycle [s]` -/
-theorem loop_with (f : Nat) (ihC : CountIter img K f) (n : Rv) (hn : RvOK n) (wc : WithClause)
-    (hw : WithOK wc) (body : Block) (hb : FragBlock body) (σ σ' : S) (o : Outcome) (s : State)
+theorem loop_with (f : Nat) (ihC : CountIter V img K f) (n : Rv) (hn : RvOK n) (wc : WithClause)
+    (hw : WithOK wc) (body : Block) (hb : FragBlock V body) (σ σ' : S) (o : Outcome) (s : State)
     (pc exit : Nat) (stk : Stk) (sim : Sim K stk σ s) (hpc : s.pc = (pc : Int))
     (hc : CodeAt img pc (resolve (assembleLoop (genRv n (.to counter) ++ withCode wc) counterTest []
       (genBlock body) (loopPost (some (withVarOf wc)))) pc exit))
@@ -741,8 +742,8 @@ theorem passes_nat (n : Nat) : passes (((n : Int)) : Rat) = n := by
 /-- **a loop over names**: `LOOP`, the counter set to 0, the discovery code `disc` (which pushes the
 names `names` and counts them, leaving the source-level state `σd`), the `with` clause, the passes —
 each starting with the next name popped into `lv` —, `END_LOOP` -/
-theorem loop_names (g : Nat) (ihC : CountIter img K g) (disc : List Instr) (lv : String)
-    (w : Option WithClause) (hw : OWithOK w) (body : Block) (hb : FragBlock body) (names : List String)
+theorem loop_names (g : Nat) (ihC : CountIter V img K g) (disc : List Instr) (lv : String)
+    (w : Option WithClause) (hw : OWithOK w) (body : Block) (hb : FragBlock V body) (names : List String)
     (σ σd σ' : S) (o : Outcome) (s : State) (pc exit : Nat) (stk : Stk)
     (sim : Sim K stk σ s) (hpc : s.pc = (pc : Int))
     (hc : CodeAt img pc (resolve (assembleLoop ([.moveq (.int 0) counter] ++ disc ++ withClause w) counterTest
@@ -805,8 +806,8 @@ theorem loop_names (g : Nat) (ihC : CountIter img K g) (disc : List Instr) (lv :
         subst hp'
         exact hi2
 
-theorem loop_step (f : Nat) (ihW : WhileIter img K f) (ihC : CountIter img K f)
-    (ihC1 : ∀ g, g + 1 = f → CountIter img K g) : LoopGoal img K (f + 1) := by
+theorem loop_step (f : Nat) (ihW : WhileIter V img K f) (ihC : CountIter V img K f)
+    (ihC1 : ∀ g, g + 1 = f → CountIter V img K g) : LoopGoal V img K (f + 1) := by
   intro hd body hhd hb σ σ' o s pc exit stk sim hpc hc h ho
   cases hd with
   | forever =>
@@ -874,8 +875,8 @@ theorem loop_step (f : Nat) (ihW : WhileIter img K f) (ihC : CountIter img K f)
         refine (exec_iterItems items hhd.1 (g + 1) σ σ1 names vars [] t p 0 he ht hp hcd hcnt).mono
           fun t' ⟨vars', ht', hc'⟩ => ⟨vars', by simpa using ht', by simpa using hc'⟩
 
-theorem stmt_repeat (f : Nat) (ihL : LoopGoal img K f) (hd : LoopHdr) (body : Block) (hhd : LoopHdrOK hd)
-    (hb : FragBlock body) : StmtGoal img K (.repeat_ hd body) (f + 1) := by
+theorem stmt_repeat (f : Nat) (ihL : LoopGoal V img K f) (hd : LoopHdr) (body : Block) (hhd : LoopHdrOK V hd)
+    (hb : FragBlock V body) : StmtGoal img K (.repeat_ hd body) (f + 1) := by
   intro σ σ' o s pc exit stk sim hpc hc h ho
   simp only [genStmt] at hc ⊢
   simp only [execStmt] at h
